@@ -33,6 +33,17 @@ MUTANTS = {
         ('nounset-ignores-allow', 'brush-core/src/expansion.rs', 'if allow_unset_vars || !self.shell.options().treat_unset_variables_as_error {', 'if !self.shell.options().treat_unset_variables_as_error {'),
         ('nounset-not-fatal', 'brush-core/src/expansion.rs', 'error::ErrorKind::ExpandingUnsetVariable(parameter.to_string()).into();\n            Err(err.into_fatal())', 'error::ErrorKind::ExpandingUnsetVariable(parameter.to_string()).into();\n            Err(err)'),
     ],
+    'U3b': [
+        ('indirect-lookup-not-tolerant', 'brush-core/src/expansion.rs', '''            self.expand_parameter_without_indirect(&inner_parameter, allow_unset_vars)
+                .await''', '''            self.expand_parameter_without_indirect(&inner_parameter, false)
+                .await'''),
+        ('first-lookup-always-tolerant', 'brush-core/src/expansion.rs', '''            .expand_parameter_without_indirect(parameter, allow_unset_vars)
+            .await?;''', '''            .expand_parameter_without_indirect(parameter, true)
+            .await?;'''),
+        ('plain-expansion-tolerates-unset', 'brush-core/src/expansion.rs', '''        self.expand_parameter_internal(parameter, indirect, false)
+            .await''', '''        self.expand_parameter_internal(parameter, indirect, true)
+            .await'''),
+    ],
     'U4a': [
         ('drop-decrement-on-cond-flow', IN, '                result.next_control_flow = result.next_control_flow.try_decrement_loop_levels();\n                break;', '                break;'),
         ('cond-not-suppressed', IN, '        // Execute loop condition with errexit suppressed\n        let mut condition_params = params.clone();\n        condition_params.suppress_errexit = true;', '        let mut condition_params = params.clone();\n        condition_params.suppress_errexit = false;'),
